@@ -186,6 +186,25 @@ where
     }
 }
 
+/// Escape a string literal so that the parser reads back the same characters:
+/// ASCII goes through `escape_default` (quotes, backslash, control characters as
+/// `\xNN`), everything else is printed as is. Escaping byte-wise instead would
+/// turn one non-ASCII character into several `\xNN` escapes, each of which the
+/// parser reads as a separate character.
+fn escape_string(s: &str) -> String {
+    let mut escaped = String::with_capacity(s.len());
+
+    for c in s.chars() {
+        if c.is_ascii() {
+            escaped.extend(escape_default(c as u8).map(char::from));
+        } else {
+            escaped.push(c);
+        }
+    }
+
+    escaped
+}
+
 impl Constant {
     pub fn to_pretty(&self) -> String {
         let mut w = Vec::new();
@@ -221,15 +240,7 @@ impl Constant {
             Constant::String(s) => RcDoc::text("string")
                 .append(RcDoc::line())
                 .append(RcDoc::text("\""))
-                .append(RcDoc::text(
-                    String::from_utf8(
-                        s.as_bytes()
-                            .iter()
-                            .flat_map(|c| escape_default(*c).collect::<Vec<u8>>())
-                            .collect(),
-                    )
-                    .unwrap(),
-                ))
+                .append(RcDoc::text(escape_string(s)))
                 .append(RcDoc::text("\"")),
             Constant::Unit => RcDoc::text("unit")
                 .append(RcDoc::line())
@@ -283,15 +294,7 @@ impl Constant {
             Constant::Integer(i) => RcDoc::as_string(i),
             Constant::ByteString(bs) => RcDoc::text("#").append(RcDoc::text(hex::encode(bs))),
             Constant::String(s) => RcDoc::text("\"")
-                .append(RcDoc::text(
-                    String::from_utf8(
-                        s.as_bytes()
-                            .iter()
-                            .flat_map(|c| escape_default(*c).collect::<Vec<u8>>())
-                            .collect(),
-                    )
-                    .unwrap(),
-                ))
+                .append(RcDoc::text(escape_string(s)))
                 .append(RcDoc::text("\"")),
             Constant::Unit => RcDoc::text("()"),
             Constant::Bool(b) => RcDoc::text(if *b { "True" } else { "False" }),
